@@ -128,6 +128,12 @@ pub fn profile(name: &str) -> Profile {
     p
 }
 
+/// A process-wide unique block of value ids for one worker (2^20 ids).
+pub(crate) fn id_block() -> u64 {
+    static NEXT: AtomicU64 = AtomicU64::new(1);
+    NEXT.fetch_add(1, Relaxed) << 20
+}
+
 pub(crate) struct Held<V: Val, S: StratExt<V>> {
     pub(crate) g: Guard<V, S>,
     pub(crate) id: u64,
@@ -181,6 +187,8 @@ pub struct Shared<V: Val, S: StratExt<V>> {
     pub(crate) results: Mutex<Vec<WorkerResult>>,
     pub(crate) fin: Mutex<Vec<Option<u64>>>,
     pub(crate) q1_done: AtomicBool,
+    /// workload-specific stop flag for background threads
+    pub(crate) stop: AtomicBool,
     pub(crate) profile: Profile,
     pub(crate) exec_no: u64,
     pub(crate) step_budget: u32,
@@ -210,6 +218,10 @@ pub(crate) struct Worker<V: Val, S: StratExt<V>> {
     pub(crate) res: RefCell<WorkerResult>,
     /// path flags of the loads made by the calls since the last recorded operation
     pub(crate) last_path: std::cell::Cell<u8>,
+    /// step budgets (loads, writes) of the calls made by this worker
+    pub(crate) budgets: std::cell::Cell<(u32, u32)>,
+    /// steps of the last call
+    pub(crate) last_steps: std::cell::Cell<u32>,
 }
 
 impl<V: Val, S: StratExt<V>> Worker<V, S> {
@@ -219,7 +231,7 @@ impl<V: Val, S: StratExt<V>> Worker<V, S> {
 
     fn fresh(&mut self) -> V {
         self.next_id += 1;
-        let id = (self.sh.exec_no << 32) | ((self.t as u64 + 1) << 24) | self.next_id;
+        let id = self.next_id;
         let v = if self.sh.profile.none_p > 0 && self.rng.below(16) < self.sh.profile.none_p { V::none() } else { V::fresh(id) };
         let vid = v.vid();
         self.res.borrow_mut().addr_of.push((vid, v.addr() as u64));
@@ -236,9 +248,11 @@ impl<V: Val, S: StratExt<V>> Worker<V, S> {
         runner::payall_reset();
         sched::take_marks();
         runner::set_in_call(true);
-        sched::op_begin(self.sh.step_budget);
+        let (bl, bw) = self.budgets.get();
+        sched::op_begin(if is_load { bl } else { bw });
         let r = f();
         let steps = sched::op_steps();
+        self.last_steps.set(steps);
         runner::set_in_call(false);
         let marks = sched::take_marks();
         {
@@ -531,8 +545,9 @@ impl<V: Val, S: StratExt<V>> Worker<V, S> {
         let nest = self.sh.profile.nested_rcu && self.rng.chance(1, 4);
         let other = if self.conts.len() > 1 { (c + 1) % self.conts.len() } else { c };
         let t = self.t;
-        let base = (self.sh.exec_no << 32) | ((t as u64 + 1) << 24) | 0x80_0000 | (self.next_id << 4);
-        self.next_id += 1;
+        // a block of ids for the products of the attempts of this call
+        let base = self.next_id + 1;
+        self.next_id += 64;
         let sh = self.sh.clone();
         let conts = &self.conts;
         let inv = self.stamp();
@@ -784,7 +799,7 @@ where
     let mut addr_of: HashMap<u64, u64> = HashMap::new();
     let mut conts: Vec<Cont<V, S>> = Vec::new();
     for c in 0..nc {
-        let v = if rng.below(16) < p.none_p { V::none() } else { V::fresh((cfg.exec_no << 32) | (0xFF << 24) | c as u64 + 1) };
+        let v = if rng.below(16) < p.none_p { V::none() } else { V::fresh(id_block() + 1) };
         init_ids.push(v.vid());
         addr_of.insert(v.vid(), v.addr() as u64);
         conts.push(Arc::new(ArcSwapAny::<V, S>::new(v)));
@@ -797,6 +812,7 @@ where
         results: Mutex::new(Vec::new()),
         fin: Mutex::new(Vec::new()),
         q1_done: AtomicBool::new(false),
+        stop: AtomicBool::new(false),
         profile: p.clone(),
         exec_no: cfg.exec_no,
         step_budget: cfg.step_budget,
@@ -847,9 +863,11 @@ where
                 guards: Vec::new(),
                 owned: Vec::new(),
                 seen_addrs: Vec::new(),
-                next_id: 0,
+                next_id: id_block(),
                 res: RefCell::new(WorkerResult { t, ..Default::default() }),
                 last_path: std::cell::Cell::new(0),
+                budgets: std::cell::Cell::new((sh2.step_budget, sh2.step_budget)),
+                last_steps: std::cell::Cell::new(0),
             };
             for _ in 0..nops {
                 let op = ALLW[w.rng.weighted(&weights)];
